@@ -327,7 +327,8 @@ def eval_nested(env, group):
             relr = os.path.relpath(full, repo)
             return any(fnmatch.fnmatch(part, pat) for pat in rules[repo] for part in relr.split('/'))
         opt = 'gitignore' if vcs == 'git' else 'hgignore'
-        for frm, scope in ((('top', ''),) if vcs == 'git' else ()) + (('top/A', 'A/'), ('top/A/N', 'A/N/'), ('top/A/N, top/A/sub', None), ('top/B, top/A', None)):       # (a root above a repository: git only, the other tools look upwards)
+        for frm, scope in ((('top', ''),) if vcs == 'git' else ()) + (('top/A', 'A/'), ('top/A/N', 'A/N/'), ('top/A/N, top/A/sub', None), ('top/B, top/A', None),
+                                                                                     ('top/A/sub, top/A/N', None), ('top/A/N/deep, top/A/sub', None), ('top/A/sub, top/B, top/A/N/deep', None)):       # (a root above a repository: git only, the other tools look upwards)
             q = 'path from ' + ', '.join(r + ' ' + opt + (' ' + group['mode'] if group['mode'] else '') for r in frm.split(', ')) + ' into list'
             o = env.run([q], cwd=holder, timeout=20.0)
             scopes = [scope] if scope is not None else [r[4:] + '/' for r in frm.split(', ')]
@@ -398,7 +399,8 @@ def eval_context(env, group):
                 emit('non-utf8-ancestor:' + opt, q, o, o.rows(), e)
         # (b) a followed link leads out of the repository: its rules say nothing about what lies outside
         repo, out = os.path.join(holder, 'r'), os.path.join(holder, 'out')
-        core.materialise(holder, {'r': D({'in': D({'fo': F(1), 'keep': F(1)}), 'l': L('../out')}), 'out': D({'o': D({'fo': F(1), 'x.log': F(1)}), 'tmpfile': F(1)})})
+        core.materialise(holder, {'r': D({'in': D({'fo': F(1), 'keep': F(1)}), 'l': L('../out'), 'l2': L('../r-data')}), 'out': D({'o': D({'fo': F(1), 'x.log': F(1)}), 'tmpfile': F(1)}),
+                                  'r-data': D({'y.log': F(1), 'fo': F(1), 'o': D({'z': F(1)})})})     # (a sibling whose name begins like the repository's)
         subprocess.run(['git', 'init', '-q', repo], check=True, stdout=subprocess.DEVNULL, stderr=subprocess.DEVNULL, env=genv)
         first = holder.split('/')[1]
         for rules, hidden_in in ((['/' + first], []), (['fo'], ['in/fo']), (['out/'], []), (['*.log', 'o'], [])):
@@ -406,10 +408,31 @@ def eval_context(env, group):
             for mode in ('', ' dfs'):
                 q = 'path from r symlinks gitignore%s into list' % mode
                 o = env.run([q], cwd=holder)
-                exp = ['r/in', 'r/in/fo', 'r/in/keep', 'r/l', 'r/l/o', 'r/l/o/fo', 'r/l/o/x.log', 'r/l/tmpfile', 'r/.gitignore']
+                exp = ['r/in', 'r/in/fo', 'r/in/keep', 'r/l', 'r/l/o', 'r/l/o/fo', 'r/l/o/x.log', 'r/l/tmpfile', 'r/.gitignore', 'r/l2', 'r/l2/y.log', 'r/l2/fo', 'r/l2/o', 'r/l2/o/z']
                 exp = [e for e in exp if e[2:] not in hidden_in]
                 got = [p_ for p_ in o.rows() if not any(part == '.git' for part in p_.split('/'))]
                 emit('link-out-of-repository', q + '  # .gitignore: ' + ' '.join(rules), o, got, exp)
+        # (c) an ignored link above the depth window is ignored all the same: nothing behind it is reported
+        for tool, fname, text in (('dockerignore', '.dockerignore', 'skip\n*.tmp\n'), ('hgignore', '.hgignore', 'syntax: glob\nskip\n*.tmp\n'), ('gitignore', '.gitignore', 'skip\n*.tmp\n')):
+            m = os.path.join(holder, 'm-' + tool)
+            os.mkdir(m)
+            core.materialise(m, {'w': D({fname: F(data=text), 'skip': L('../behind'), 'keep': L('../behind2'), 'd': D({'f': F(1), 'skip': L('../../behind'), 'g.tmp': F(1)}), 'skipdir': D({'skip': D({'s': F(1)})})}),
+                                 'behind': D({'o1': F(1), 'od': D({'o2': F(1)})}), 'behind2': D({'p1': F(1), 'pd': D({'p2': F(1), 'q.tmp': F(1)})})})
+            if tool == 'hgignore':
+                os.mkdir(os.path.join(m, 'w', '.hg'))
+            if tool == 'gitignore':
+                subprocess.run(['git', 'init', '-q', os.path.join(m, 'w')], check=True, stdout=subprocess.DEVNULL, stderr=subprocess.DEVNULL, env=genv)
+            # (what lies behind `keep` lies outside the repository / is named by no pattern: all of it is listed)
+            full = {1: ['w/keep', 'w/d', 'w/skipdir', 'w/' + fname], 2: ['w/keep/p1', 'w/keep/pd', 'w/d/f'], 3: ['w/keep/pd/p2', 'w/keep/pd/q.tmp']}
+            if tool == 'dockerignore':      # (its patterns name paths from the context directory: only the top-level `skip` and `*.tmp` are meant)
+                full = {1: full[1], 2: full[2] + ['w/d/skip', 'w/d/g.tmp', 'w/skipdir/skip'], 3: full[3] + ['w/d/skip/o1', 'w/d/skip/od', 'w/skipdir/skip/s'], 4: ['w/d/skip/od/o2']}
+            for mind in (1, 2, 3):
+                for mode in ('', ' dfs'):
+                    q = 'path from w mindepth %d symlinks %s%s into list' % (mind, tool, mode)
+                    o = env.run([q], cwd=m)
+                    exp = [e for lvl, es in full.items() if lvl >= mind for e in es]
+                    got = [p_ for p_ in o.rows() if not any(part in ('.git', '.hg') for part in p_.split('/'))]
+                    emit('ignored-link-above-window:' + tool, q, o, got, exp)
     finally:
         import shutil
         shutil.rmtree(os.path.join(holder.encode(), b'r\xff'), ignore_errors=True)
